@@ -21,6 +21,14 @@ FAMILIES = {
     "cc": ("commentedOutCode", "minLength", lambda n, t: n >= t, "min length of the comment that triggers a warning"),
 }
 
+# parameters that are not aggregates: a "header" type has a size like any other (sizes from the compiled program)
+KINDS = {
+    "K1": "string", "K2": "interface{}", "K3": "[]int", "K4": "complex128", "K5": "int64", "K6": "map[string]int", "K7": "func()",
+    "K8": "chan int", "K9": "*int", "K10": "int32", "K11": "int16", "K12": "bool", "K13": "error", "K14": "complex64", "K15": "uintptr",
+    "K16": "float32", "K17": "NStr", "K18": "NIface", "K19": "NSlice", "K20": "[]NStr",
+}
+KIND_DECLS = "type NStr string\ntype NIface interface{ M() }\ntype NSlice []byte\n"
+
 # structs with padding: name -> definition (sizes come from a compiled program)
 PADDED = {
     "P1": "struct { a byte; b int64; c byte }",
@@ -77,6 +85,12 @@ def make_pkg(ws):
         add("func hpp_%s(a %s) { //@\n}\n" % (name, name), "hpP", name)
         add("func rvp_%s(xs []%s) {\n\tfor _, x := range xs { //@\n\t\t_ = x\n\t}\n}\n" % (name, name), "rvP", name)
         add("func rep_%s() {\n\tvar arr [3]%s\n\tfor _, x := range arr { //@\n\t\t_ = x\n\t}\n}\n" % (name, name), "reP", name)
+    src.append(KIND_DECLS)
+    for name, tx in KINDS.items():
+        add("func hpk_%s(a %s) { //@\n}\n" % (name, tx), "hpK", name)
+        add("func rvk_%s(xs []%s) {\n\tfor _, x := range xs { //@\n\t\t_ = x\n\t}\n}\n" % (name, tx), "rvK", name)
+    add("func hpk_var(a ...int) { //@\n}\n", "hpK", "K3")
+    add("func (a NStr) hpk_recv() { //@\n}\n", "hpK", "K17")
     text = "".join(src)
     # the //@ markers on comment lines of the cc family must not alter the comment text under test
     text = text.replace(" //@\n\tuse()", "\n\tuse()")
@@ -142,8 +156,8 @@ func TestRange(t *testing.T) {
     # Sizeof program
     sd = os.path.join(ws, "sizeof")
     os.makedirs(sd)
-    body = "".join("type %s %s\n" % kv for kv in PADDED.items())
-    prints = "".join('\tfmt.Println("%s", unsafe.Sizeof(%s{}), unsafe.Sizeof([3]%s{}))\n' % (n, n, n) for n in PADDED)
+    body = "".join("type %s %s\n" % kv for kv in PADDED.items()) + KIND_DECLS + "".join("type %s = %s\n" % kv for kv in KINDS.items())
+    prints = "".join('\tfmt.Println("%s", unsafe.Sizeof(*new(%s)), unsafe.Sizeof([3]%s{}))\n' % (n, n, n) for n in KINDS) + "".join('\tfmt.Println("%s", unsafe.Sizeof(%s{}), unsafe.Sizeof([3]%s{}))\n' % (n, n, n) for n in PADDED)
     open(os.path.join(sd, "main.go"), "w").write("package main\n\nimport (\n\t\"fmt\"\n\t\"unsafe\"\n)\n\n" + body + "\nfunc main() {\n" + prints + "}\n")
     return fam_of_line
 
@@ -162,10 +176,12 @@ def run(tier):
     if rc != 0:
         vlib.harness_fail("sizeof program: " + se[-500:])
     sizeof = {l.split()[0]: (int(l.split()[1]), int(l.split()[2])) for l in so.splitlines() if l.strip()}
+    # non-aggregate parameters and range values: their measure is what the compiled program says
+    fam_of_line = {ln: (({"hpK": "hp", "rvK": "rv"}[v[0]], sizeof[v[1]][0]) if v[0] in ("hpK", "rvK") else v) for ln, v in fam_of_line.items()}
     # thresholds to try per family
-    tvals = {"hp": NS + [0], "rv": NS + [0], "re": NS + [0], "rvl": NS, "tr": SMALL + [9], "nr": SMALL + [9], "ie": SMALL + [9], "cc": list(range(6, 26))}
+    tvals = {"hp": sorted(NS + [0, 15, 16, 17, 23, 24, 25]), "rv": sorted(NS + [0, 15, 16, 17, 23, 24, 25]), "re": NS + [0], "rvl": NS, "tr": SMALL + [9], "nr": SMALL + [9], "ie": SMALL + [9], "cc": list(range(6, 26))}
     if tier == "quick":
-        tvals = {k: (v if k == "cc" else [t for i, t in enumerate(v) if i % 2 == 0 or t in (1, 2, 3, 4, 5, 7, 9, 11, 80, 128, 512)]) for k, v in tvals.items()}
+        tvals = {k: (v if k == "cc" else [t for i, t in enumerate(v) if i % 2 == 0 or t in (1, 2, 3, 4, 5, 7, 8, 9, 11, 16, 17, 24, 25, 80, 128, 512)]) for k, v in tvals.items()}
     vectors = {}
     for fam, (ck, pn, pred, doc) in FAMILIES.items():
         for t in tvals[fam]:
